@@ -36,6 +36,9 @@ PROPS = {
     "C16": {"modules": ["c16_scenarios"], "level": "other", "bounded": []},
     "C12": {"modules": ["c16_scenarios"], "level": "other", "bounded": []},
     "C14": {"modules": ["c05_limits", "c02_calendar", "c04_schedule"], "level": "other", "bounded": []},
+    "C18": {"modules": ["c18_reports"], "level": "other", "bounded": []},
+    "C19": {"modules": ["c19_cli"], "level": "other", "bounded": []},
+    "C20": {"modules": ["c19_cli"], "level": "other", "bounded": []},
     "C10": {
         "modules": ["c10_containers", "c01_ledger"],
         "level": "other",
